@@ -31,6 +31,14 @@ def streams(rng, tier, ctx):
                 cfg["pw"] = r.pick([4, 16]); cfg["allocA"] = cfg["allocB"] = r.pick([3 * 1448, 8000, 20000])
             sim = H.lossy_scenario(r, it, tier, cfg=cfg, max_len=min(6000, cfg["allocA"]))
             H.finish(sim, drain=True, max_ticks=500)
+            if sim.drained and not sim.dead:
+                # packets sent once and lost (Unreliable / TimeSensitive) stay in the send window - unacknowledged, hence counted -
+                # until a sync round lets the receiver's window pass them: give it time, then look again
+                lat = getattr(sim, "latency", 0)
+                sim.run(60, 100_000_000, Net(latency=lat), Net(latency=lat))
+                sim.drain(max_ticks=400, dt_ns=20_000_000)
+                for ep in sim.eps:
+                    sim.probe(ep); sim.get(ep)
             cid = "s%d" % i
             cases.append((cid, sim.ops)); meta[cid] = sim
     finally:
@@ -59,11 +67,20 @@ def oracle(stream, cid, ops, outs):
     for ep, gs in gets.items():
         for g in gs:
             pass
-    if getattr(sim, "drained", None):
-        for ep in ("A", "B"):
-            if gets.get(ep) and int(gets[ep][-1]["sbs"]) != 0:
-                fails.append({"oracle": "sbs_zero", "detail": "%s quiescent but send_buffer_size=%s" % (ep, gets[ep][-1]["sbs"]),
+    # "zero once everything has been acknowledged": whenever the send queue is empty and the send window is empty (every packet
+    # that was sent has been acknowledged or passed by the receiver's window) the counter is 0; and the public
+    # send_buffer_size() is the counter the probe reports
+    for ep in ("A", "B"):
+        for p in probes.get(ep, []):
+            if p["ps"][0] == p["ps"][1] and int(p["pb"][0]) == 0 and int(p["ps"][4]) != 0:
+                fails.append({"oracle": "sbs_zero", "detail": "%s t=%d: send queue and send window are empty but total_size=%s" % (ep, p["_time"], p["ps"][4]),
                               "signature": {"oracle": "sbs_zero"}})
+                break
+        if probes.get(ep) and gets.get(ep) and getattr(sim, "drained", None):
+            p = probes[ep][-1]; g = gets[ep][-1]
+            if int(g["sbs"]) != int(p["ps"][4]):
+                fails.append({"oracle": "sbs_public", "detail": "%s: send_buffer_size() = %s but the counter is %s" % (ep, g["sbs"], p["ps"][4]),
+                              "signature": {"oracle": "sbs_public"}})
     return fails
 
 def signature(ops, outs):
